@@ -916,3 +916,56 @@ Definition scn_row_ok (C : cfg) (fuel : nat) (r : scn * option outcome) : bool :
               | None => existsb o_panic outs
               | Some o => existsb (outcome_eqb o) outs
               end.
+
+(** * Monitor for the pairing of connection hooks and handler invocations (C16)
+
+    [trace_ok t] reads the hook / handler / wg events of one connection (oldest first) and
+    rejects: a second connect-hook outcome; a handler invocation or the terminate hook without a
+    successful connect hook, after the terminate hook, after wg.Done, or while a handler runs;
+    a handler end without a start; a second terminate hook; wg.Done while a handler runs, a
+    second wg.Done, or wg.Done after a successful connect hook without the terminate hook. *)
+Inductive hookst := HkNone | HkOk | HkFail | HkTlsFail.
+Record mon := { m_hook : hookst; m_term : bool; m_inh : bool; m_wg : bool; m_bad : bool }.
+Definition mon0 : mon := {| m_hook := HkNone; m_term := false; m_inh := false; m_wg := false; m_bad := false |}.
+Definition hook_is_ok (h : hookst) : bool := match h with HkOk => true | _ => false end.
+Definition hook_is_none (h : hookst) : bool := match h with HkNone => true | _ => false end.
+
+Definition mon_upd (l : label) (q : mon) : mon :=
+  match l with
+  | LTlsFail =>
+    {| m_hook := HkTlsFail; m_term := m_term q; m_inh := m_inh q; m_wg := m_wg q;
+       m_bad := m_bad q || negb (hook_is_none (m_hook q)) |}
+  | LHookOk =>
+    {| m_hook := HkOk; m_term := m_term q; m_inh := m_inh q; m_wg := m_wg q;
+       m_bad := m_bad q || negb (hook_is_none (m_hook q)) || m_term q || m_wg q |}
+  | LHookFail =>
+    {| m_hook := HkFail; m_term := m_term q; m_inh := m_inh q; m_wg := m_wg q;
+       m_bad := m_bad q || negb (hook_is_none (m_hook q)) || m_term q || m_wg q |}
+  | LHStart =>
+    {| m_hook := m_hook q; m_term := m_term q; m_inh := true; m_wg := m_wg q;
+       m_bad := m_bad q || negb (hook_is_ok (m_hook q)) || m_term q || m_inh q || m_wg q |}
+  | LHEnd =>
+    {| m_hook := m_hook q; m_term := m_term q; m_inh := false; m_wg := m_wg q;
+       m_bad := m_bad q || negb (m_inh q) |}
+  | LTermHook =>
+    {| m_hook := m_hook q; m_term := true; m_inh := m_inh q; m_wg := m_wg q;
+       m_bad := m_bad q || negb (hook_is_ok (m_hook q)) || m_term q || m_inh q || m_wg q |}
+  | LWgDone =>
+    {| m_hook := m_hook q; m_term := m_term q; m_inh := m_inh q; m_wg := true;
+       m_bad := m_bad q || m_wg q || m_inh q || (hook_is_ok (m_hook q) && negb (m_term q)) |}
+  | _ => q
+  end.
+
+(** events newest first (as the ghost records them) *)
+Definition mon_of (ev : list label) : mon := fold_right mon_upd mon0 ev.
+(** trace oldest first *)
+Definition trace_ok (t : list label) : bool := negb (m_bad (mon_of (rev t))).
+
+(** product of the control skeleton with the monitor *)
+Definition mstate := (cstate * mon)%type.
+Definition mstep (C : cfg) (x : mstate) : list mstate :=
+  map (fun lc : label * cstate => (snd lc, mon_upd (fst lc) (snd x))) (cstep_lbl C (fst x)).
+Definition enc_hookst (h : hookst) : positive := match h with HkNone => 1 | HkOk => 2 | HkFail => 3 | HkTlsFail => 4 end%positive.
+Definition enc_mon (q : mon) : positive :=
+  ppair (enc_hookst (m_hook q)) (ppair (enc_bool (m_term q)) (ppair (enc_bool (m_inh q)) (ppair (enc_bool (m_wg q)) (enc_bool (m_bad q))))).
+Definition enc_mstate (x : mstate) : positive := ppair (enc_cstate (fst x)) (enc_mon (snd x)).
